@@ -131,6 +131,13 @@ def gen_content_op(rng, name, scope_enc, pool=None, big=False):
         if big and rng.chance(0.25):
             # long contents / long lines (well beyond any read-ahead block)
             op['text'] = op['text'] * rng.choice([20, 300, 2000])
+
+        if rng.chance(0.04 if not big else 0.3) and enc_ok('x', eff):
+            # a long first line, at lengths around powers of two and block
+            # multiples, ending in LF or CRLF
+            k = rng.choice([94, 95, 96, 97, 191, 192, 1023, 1024, 1025, 4094,
+                            4095, 4096, 4097, 8192, 70000])
+            op['text'] = 'x' * k + rng.choice(['\n', '\r\n']) + op['text']
         k = rng.below(8)
 
         if k < 5:
@@ -144,11 +151,20 @@ def gen_content_op(rng, name, scope_enc, pool=None, big=False):
             op['mimetype'] = rng.choice(['text/plain', 'text/markdown'])
     elif name == 'meta':
         op['metadata'] = gen_metadata(rng)
+
+        if rng.chance(0.15):
+            op['meta_format'] = 'json'
     else:
         body = gen_diff_bytes(rng, own)
 
         if big and rng.chance(0.25):
             body = body * rng.choice([20, 300, 2000])
+
+        if rng.chance(0.04 if not big else 0.3):
+            k = rng.choice([95, 96, 97, 1023, 1024, 1025, 4095, 4096, 4097,
+                            70000])
+            nl = rng.choice(['\n', '\r\n'])
+            body = ('x' * k + nl).encode(own or 'ascii') + body
 
         op['content_hex'] = body.hex()
 
@@ -176,6 +192,8 @@ def gen_history(rng, max_changes=3, max_files=3, pool=None, p_enc=0.4,
 
         if e is not None:
             op['encoding'] = e
+        elif rng.chance(0.1):
+            op['encoding'] = None       # explicit None == omitted
 
         del scope[lvl:]
         scope.append(e or scope[-1])
